@@ -25,23 +25,24 @@ type File struct {
 
 // Spec is the run spec of SIM-LOADER.
 type Spec struct {
-	Marker         string             `json:"marker"`
-	RootUser       string             `json:"root_user,omitempty"` // http(s) root forms: credentials in the root's URL (files next to the root are served under them)
-	RootForm       string             `json:"root_form"`           // data | reader | data_path_abs | data_path_http | file_rel | file_abs | file_url | http | https
-	Reader         string             `json:"reader"`              // func | default
-	External       bool               `json:"external"`            // IsExternalRefsAllowed
-	Reuse          bool               `json:"reuse,omitempty"`
-	RootFragRefs   []string           `json:"root_frag_refs,omitempty"`   // fragment references planted in the root at positions the loader visits whose fragment may not exist in the target
-	ThenResolveOff bool               `json:"then_resolve_off,omitempty"` // afterwards, on the same Loader: switch turned off, root unmarshalled by the caller, ResolveRefsIn(doc, location)
-	Stdin          bool               `json:"stdin,omitempty"`            // root form "reader": through LoadFromStdin (standard input is the simulator's)
-	ElemFragRefs   bool               `json:"elem_frag_refs,omitempty"`   // bare element files may hold fragment-only references ("#/components/...")
-	ThenOther      bool               `json:"then_other,omitempty"`       // switch off: another document of the layout is loaded afterwards as a root of its own on the same Loader
-	ThenMemory     any                `json:"then_memory,omitempty"`      // a document without external references loaded from memory afterwards on the same Loader
-	MapSeed        uint64             `json:"map_seed,omitempty"`         // 0 = sorted map iteration inside the loader; else seeded permutation
-	Files          []File             `json:"files"`
-	Decoys         []string           `json:"decoys,omitempty"`  // paths of files nothing refers to
-	Faults         []simenv.ReadFault `json:"faults,omitempty"`  // Loc = "file:<index>"
-	Changed        []int              `json:"changed,omitempty"` // file indices whose second read returns different content
+	Marker           string             `json:"marker"`
+	RootUser         string             `json:"root_user,omitempty"` // http(s) root forms: credentials in the root's URL (files next to the root are served under them)
+	RootForm         string             `json:"root_form"`           // data | reader | data_path_abs | data_path_http | file_rel | file_abs | file_url | http | https
+	Reader           string             `json:"reader"`              // func | default
+	External         bool               `json:"external"`            // IsExternalRefsAllowed
+	Reuse            bool               `json:"reuse,omitempty"`
+	RootFragRefs     []string           `json:"root_frag_refs,omitempty"`      // fragment references planted in the root at positions the loader visits whose fragment may not exist in the target
+	ThenResolveOff   bool               `json:"then_resolve_off,omitempty"`    // afterwards, on the same Loader: switch turned off, root unmarshalled by the caller, ResolveRefsIn(doc, location)
+	Stdin            bool               `json:"stdin,omitempty"`               // root form "reader": through LoadFromStdin (standard input is the simulator's)
+	ViaResolveRefsIn bool               `json:"via_resolve_refs_in,omitempty"` // data_path_* roots: the caller unmarshals the document and calls ResolveRefsIn(doc, location)
+	ElemFragRefs     bool               `json:"elem_frag_refs,omitempty"`      // bare element files may hold fragment-only references ("#/components/...")
+	ThenOther        bool               `json:"then_other,omitempty"`          // switch off: another document of the layout is loaded afterwards as a root of its own on the same Loader
+	ThenMemory       any                `json:"then_memory,omitempty"`         // a document without external references loaded from memory afterwards on the same Loader
+	MapSeed          uint64             `json:"map_seed,omitempty"`            // 0 = sorted map iteration inside the loader; else seeded permutation
+	Files            []File             `json:"files"`
+	Decoys           []string           `json:"decoys,omitempty"`  // paths of files nothing refers to
+	Faults           []simenv.ReadFault `json:"faults,omitempty"`  // Loc = "file:<index>"
+	Changed          []int              `json:"changed,omitempty"` // file indices whose second read returns different content
 }
 
 var plural = map[string]string{
@@ -186,6 +187,10 @@ func (g *gen) slot(kind string, depth int) any {
 				if strings.Contains(frag, "{id}") && g.r.Chance(1, 3) {
 					// the same path template with another variable name is another key: must not resolve
 					frag = strings.Replace(frag, "{id}", "{ident}", 1)
+				}
+				if strings.HasPrefix(frag, "/components/") && strings.Count(frag, "/") == 3 && g.r.Chance(1, 16) {
+					// a pointer that stops one token short names the whole collection, not a member: must not resolve
+					frag = frag[:strings.LastIndex(frag, "/")]
 				}
 				if strings.HasPrefix(frag, "/components/") && g.r.Chance(1, 8) {
 					if g.r.Chance(1, 3) {
@@ -379,6 +384,7 @@ func Gen(seed uint64, prop, tier string) *Spec {
 		}
 	}
 	s.ElemFragRefs = r.Chance(1, 4)
+	s.ViaResolveRefsIn = strings.HasPrefix(s.RootForm, "data_path") && r.Chance(1, 3)
 	s.Stdin = s.RootForm == "reader" && r.Bool()
 	s.Reader = simfw.Pick(r, []string{"func", "func", "default"})
 	s.External = r.Chance(3, 5)
@@ -483,6 +489,9 @@ func Gen(seed uint64, prop, tier string) *Spec {
 				fi = r.Range(1, len(s.Files)-1)
 			}
 			kinds := []string{"enoent", "eio", "torn", "http5xx", "http_reset", "http_short"}
+			if s.Reader == "func" && r.Chance(1, 3) {
+				kinds = []string{"unsupported"} // the caller's reader declines the location
+			}
 			if strings.HasPrefix(AbsLoc(s, fi), "http") {
 				kinds = []string{"http5xx", "http_reset", "http_short", "http_short", "torn", "eio"} // what connections do
 			}
